@@ -14,10 +14,12 @@ def x_jobs():
         j.append(X("c04_highest_index", {"n": 3, "t": 5, "mode": "fp"}, "HighestIndex length 3 under %s (index as PeriodType cast)" % f, features=(f,), cost=10, encodes=ENC))
         j.append(X("c04_smm", {"n": 2, "t": 4, "mode": "fp"}, "SMM length 2 under %s" % f, features=(f,), cost=10, encodes=ENC))
         # ... and beyond 255
-        for (m, n) in (("sma", 255), ("sma", 300), ("wma", 256), ("hma", 300), ("linreg", 257), ("integral", 300), ("momentum", 1000)):
-            quick = f == "p16" and n <= 300 and m in ("sma", "wma", "integral")
+        for (m, n) in (("sma", 255), ("sma", 300), ("wma", 256), ("hma", 257), ("hma", 300), ("linreg", 257), ("linreg", 400), ("integral", 300), ("momentum", 1000)):
+            # quick: one length beyond 255 per arithmetic pattern (HMA: sqrt(257) = 16 no longer fits the u8-sized
+            # assumptions; LinReg 400: the integer sums n^4-ish exceed 32 bits from length 338 on)
+            quick = f == "p16" and ((n <= 300 and m in ("sma", "wma", "integral")) or (m, n) in (("hma", 257), ("linreg", 400)))
             j.append(X("c02_" + m, {"n": n, "t": n + 3}, "%s length %d (beyond the default PeriodType) under %s: identity with the definition at every step" % (m, n, f), features=(f,),
-                       tier="q" if quick else "t", core=quick, cost=20 + n * n / 4000.0, timeout=2400, encodes=ENC))
+                       tier="q" if quick else "t", core=quick, cost=(160 if m == "hma" else 100 if (m, n) == ("linreg", 400) else 20 + n * n / 4000.0), timeout=2400, encodes=ENC))
     j.append(X("c07_long_stream", {"pre": 300, "t": 3, "left": 1, "right": 1, "n": 3, "mode": "fp", "max_paths": 100000}, "reversal detectors / arg-extremum trackers across step 255..300 under period_type_u16: definitional (nothing changes at 255)", features=("p16",), cost=120, timeout=1500, encodes=ENC))
     for f in ("f32",):
         for m in ("sma", "wma", "ema"):
